@@ -169,4 +169,64 @@ def episodes (w : World) : Op → List Trace
   | .nodesOp nf => [withNodesOperationLocked w nf fun _ => []]
   | .workloads ids ignoreLock => [withWorkloadsLocked w ignoreLock ids []]
 
+/-! ### a failing acquisition -/
+
+def leadingAcqs : Trace → List Key
+  | .acq k :: t => k :: leadingAcqs t
+  | _ => []
+
+/-- the episode when the `(k+1)`-th acquisition of its leading run fails (wait timeout, store
+    error): `doLock` returns the error, the callback does not run, the deferred `doUnlockAll`
+    releases the `k` locks taken so far -/
+def failTrunc (k : Nat) (t : Trace) : Trace :=
+  let ks := (leadingAcqs t).take k
+  ks.map .acq ++ ks.reverse.map .rel
+
+/-! ### lexical nesting of the lock helpers in cluster/calcium/*.go
+
+One entry per call site: file, enclosing function, kind of the innermost enclosing helper call
+(`top` = none) and kind of the helper called.  The harness re-derives this table from the source
+with go/ast on every run and the oracle compares. -/
+structure Site where
+  file : String
+  func : String
+  outer : String
+  inner : String
+  deriving Repr, DecidableEq
+
+def nestingTable : List Site :=
+  [⟨"capacity.go", "CalculateCapacity", "top", "pod"⟩,
+   ⟨"control.go", "ControlWorkload", "top", "workload"⟩,
+   ⟨"create.go", "doCreateWorkloads", "top", "pod"⟩,
+   ⟨"create.go", "doCreateWorkloads", "top", "pod"⟩,
+   ⟨"dissociate.go", "DissociateWorkload", "pod", "workload"⟩,
+   ⟨"dissociate.go", "DissociateWorkload", "top", "pod"⟩,
+   ⟨"lock.go", "withNodeOperationLocked", "top", "nodeop"⟩,
+   ⟨"lock.go", "withNodePodLocked", "top", "pod"⟩,
+   ⟨"lock.go", "withNodesLocked", "top", "raw"⟩,
+   ⟨"lock.go", "withNodesOperationLocked", "top", "raw"⟩,
+   ⟨"lock.go", "withNodesPodLocked", "top", "raw"⟩,
+   ⟨"lock.go", "withWorkloadLocked", "top", "workload"⟩,
+   ⟨"lock.go", "withWorkloadsLocked", "top", "raw"⟩,
+   ⟨"node.go", "RemoveNode", "top", "pod"⟩,
+   ⟨"node.go", "SetNode", "top", "pod"⟩,
+   ⟨"pod.go", "RemovePod", "top", "pod"⟩,
+   ⟨"raw_engine.go", "RawEngine", "top", "workload"⟩,
+   ⟨"realloc.go", "ReallocResource", "pod", "workload"⟩,
+   ⟨"realloc.go", "ReallocResource", "top", "pod"⟩,
+   ⟨"remap.go", "RemapResourceAndLog", "top", "nodeop"⟩,
+   ⟨"remove.go", "RemoveWorkload", "pod", "workload"⟩,
+   ⟨"remove.go", "RemoveWorkload", "top", "pod"⟩,
+   ⟨"replace.go", "ReplaceWorkload", "top", "workload"⟩,
+   ⟨"resource.go", "doGetNodeResource", "top", "pod"⟩,
+   ⟨"send.go", "Send", "top", "workload"⟩,
+   ⟨"sendlarge.go", "newWorkloadSender", "top", "workload"⟩]
+
+/-- the only lexical nestings compatible with the global order: pod ⊃ workload -/
+def allowedNesting (outer inner : String) : Bool :=
+  (outer == "top" && (inner == "pod" || inner == "workload" || inner == "nodeop" || inner == "raw")) ||
+  (outer == "pod" && inner == "workload")
+
+def Site.render (s : Site) : String := s.file ++ ":" ++ s.func ++ ":" ++ s.outer ++ ">" ++ s.inner
+
 end Eru.Lock
